@@ -43,6 +43,7 @@ typedef __mpz_struct *mpz_ptr; typedef const __mpz_struct *mpz_srcptr;
 /* the C++ wrapper classes are opaque */
 typedef struct { __mpz_struct z; } x___gmp_expr_mpz_t_mpz_t;
 typedef struct { __mpq_struct q; } x___gmp_expr_mpq_t_mpq_t;
+typedef x___gmp_expr_mpz_t_mpz_t mpz_class; typedef x___gmp_expr_mpq_t_mpq_t mpq_class;
 typedef struct { char __opaque; } x_std_stack___gmp_expr_mpq_t_mpq_t;
 typedef struct { char __opaque; } x_std_mutex; typedef x_std_mutex x_std_lock_guard_std_mutex___mutex_type; typedef struct { char __opaque; } x_std_lock_guard_std_mutex;
 typedef struct { char __opaque; } x_std_stack___mpq_struct_P_std_vector___mpq_struct_P;
